@@ -138,6 +138,6 @@ Definition mrs (cb : list mnode -> mctx -> option (str * mctx)) (s : mstmt) (c :
 (* the whole pipeline for option combination i; sv / sb = start strings handed to marker_start for variable / block tokens;
    bundled = the marker decision of the code in /repo (regenerated flag), upstream = never + rules without marker alternatives *)
 Definition mini_bundled (i : nat) (sv sb : list str) tags (fuel : nat) (src : str) (c : mctx) : option str :=
-  pipeline mexpr mstmt mctx mval (code_marker sv) (code_marker sb) mpt mps mev mtext mrs py_uni (nth i root_rules_x []) (inner_combo i tags) fuel src c.
+  pipeline mexpr mstmt mctx mval (code_marker sv) (code_marker sb) autoindent_minus_guard mpt mps mev mtext mrs py_uni (nth i root_rules_x []) (inner_combo i tags) fuel src c.
 Definition mini_upstream (i : nat) tags (fuel : nat) (src : str) (c : mctx) : option str :=
-  pipeline mexpr mstmt mctx mval never never mpt mps mev mtext mrs py_uni (demarkx (nth i root_rules_x [])) (inner_combo i tags) fuel src c.
+  pipeline mexpr mstmt mctx mval never never false mpt mps mev mtext mrs py_uni (demarkx (nth i root_rules_x [])) (inner_combo i tags) fuel src c.
